@@ -149,6 +149,22 @@ example : parseResponse [0x80, 1, 0, 2, 0x80, 1, 0x80, 4, 0, 2, 0, 17, 0, 5, 0, 
     (.ok { protocol := .draftNtpv5, algorithm := .siv512, cookies := [[1, 2]], server := none,
            port := some 123, keepAlive := false }, 28) := by decide +kernel
 
+/-- the default NTP port is a value like any other: `some 123` and `none` are different responses with
+    different serialisations, and the serialisation of `some 123` carries the Port record -/
+example :
+    serializeResponse { protocol := .ntpv4, algorithm := .siv256, cookies := [[1]], server := none,
+                        port := some 123, keepAlive := false } =
+      some [0x80, 1, 0, 2, 0, 0, 0x80, 4, 0, 2, 0, 15, 0, 5, 0, 1, 1, 0x80, 7, 0, 2, 0, 123, 0x80, 0, 0, 0] ∧
+    serializeResponse { protocol := .ntpv4, algorithm := .siv256, cookies := [[1]], server := none,
+                        port := none, keepAlive := false } =
+      some [0x80, 1, 0, 2, 0, 0, 0x80, 4, 0, 2, 0, 15, 0, 5, 0, 1, 1, 0x80, 0, 0, 0] := by decide +kernel
+
+/-- hypothesis of `response_roundtrip` with the boundary values: port 123 and an empty (but present) server name -/
+example : parseResponse [0x80, 1, 0, 2, 0, 0, 0x80, 4, 0, 2, 0, 15, 0, 5, 0, 1, 1, 0x80, 6, 0, 0,
+      0x80, 7, 0, 2, 0, 123, 0x80, 0, 0, 0] =
+    (.ok { protocol := .ntpv4, algorithm := .siv256, cookies := [[1]], server := some [],
+           port := some 123, keepAlive := false }, 31) := by decide +kernel
+
 /-- errors consume what they read: a body cut short -/
 example : parseRecord [0, 5, 0, 3, 1, 2] = (.error .unexpectedEof, 6) := by decide +kernel
 
